@@ -41,6 +41,7 @@ import (
 	"encoding/json"
 	"math"
 	"os"
+	"reflect"
 	"strconv"
 	"strings"
 )
@@ -202,11 +203,61 @@ func verifJSONValid(h int) bool { return verifRTDocs[h-1].valid }
 
 // native twin: marshal, unmarshal into a fresh value of the same type, marshal again
 func verifJSONTransparent(v interface{}) bool {
-	b1, err := json.Marshal(v)
-	if err != nil {
+	if _, err := json.Marshal(v); err != nil {
 		return false
 	}
-	return len(b1) > 0
+	return verifRTOpaque(reflect.TypeOf(v), map[reflect.Type]bool{}) == ""
+}
+
+// native twin of verifJSONCopy: the real encoding/json round trip
+func verifJSONCopy(dst, src interface{}) {
+	b, err := json.Marshal(src)
+	if err != nil {
+		panic("verifJSONCopy: " + err.Error())
+	}
+	if err := json.Unmarshal(b, dst); err != nil {
+		panic("verifJSONCopy: " + err.Error())
+	}
+}
+
+// the same structural rule as the executor's: every data-carrying field must be visible to
+// encoding/json (exported, not tagged "-", no interface-typed data); mutexes carry no data
+func verifRTOpaque(t reflect.Type, seen map[reflect.Type]bool) string {
+	if seen[t] {
+		return ""
+	}
+	seen[t] = true
+	switch t.Kind() {
+	case reflect.Ptr, reflect.Slice, reflect.Array:
+		return verifRTOpaque(t.Elem(), seen)
+	case reflect.Map:
+		if r := verifRTOpaque(t.Key(), seen); r != "" {
+			return r
+		}
+		return verifRTOpaque(t.Elem(), seen)
+	case reflect.Struct:
+		for i := 0; i < t.NumField(); i++ {
+			f := t.Field(i)
+			if f.Type.PkgPath() == "sync" && (f.Type.Name() == "RWMutex" || f.Type.Name() == "Mutex") {
+				continue
+			}
+			if f.PkgPath != "" {
+				return "field " + f.Name + " is unexported"
+			}
+			if f.Tag.Get("json") == "-" {
+				return "field " + f.Name + " is tagged json:\"-\""
+			}
+			if r := verifRTOpaque(f.Type, seen); r != "" {
+				return r
+			}
+		}
+		return ""
+	case reflect.Interface:
+		return "interface-typed data"
+	case reflect.Bool, reflect.Int, reflect.Int8, reflect.Int16, reflect.Int32, reflect.Int64, reflect.Uint, reflect.Uint8, reflect.Uint16, reflect.Uint32, reflect.Uint64, reflect.Uintptr, reflect.Float32, reflect.Float64, reflect.String:
+		return ""
+	}
+	return "type not handled"
 }
 func verifRTGet(h int, path string) (interface{}, bool) {
 	d := verifRTDocs[h-1]
